@@ -45,6 +45,10 @@ func (configuration *Configuration) Marshal() ([]byte, error) {
 }
 
 func (configuration *Configuration) Unmarshal(b []byte) error {
+	if len(b) == 0 {
+		return errors.Errorf("Configuration: No sufficient bytes to decode next configuration")
+	}
+
 	if len(b) > 0 {
 		// bounds checking
 		if len(b) <= 4 {
